@@ -603,8 +603,9 @@ def selftest_binding(ctx: Ctx, kept: dict[str, list[dict]]) -> None:
                          f"case {victim} of {len(recs)}: rejected={sorted(got)} expected={sorted(base | {victim})}")
             done = True
             break
-        if not done:
-            raise MachineryError(f"binding self-test: no corruptible {mode} case among {len(recs)}")
+        if not done:  # fatal on a tree without violations; inconclusive when the tree already breaks these cases
+            ctx.selftest(f"expected-value corruption ({mode})", False,
+                         f"no {mode} case among {len(recs)} that is accepted as exported and can be corrupted")
     # a second field of the single cases: the expected length
     recs = kept.get("single", [])[:90]
     base = _mismatch_set(recs)
